@@ -33,6 +33,156 @@ impl Elf {
     ensures /*@parsed*/ r == goblin::elf::parsed(self.bytes@),
 //@ end
 
+//@ fn impl Elf :: fn exported_symbols loops=1
+//@ rewrite 1 `for sym in elf.dynsyms.iter()` => `for sym in it0: elf.dynsyms.iter()` ## R-ghost-iter-name: names the ghost iterator of the for loop so that invariants can mention it; no executable change
+//@ rewrite 1 `{ continue; } if` => `{ } else if` ## R-continue: `if C { continue; } if D { S }` at the end of a loop body is by definition `if C { } else if D { S }` (Verus: "for-loops do not yet support continue")
+//@ spec
+    requires
+        self.wf(),
+        exported_wf(goblin::elf::parsed(self.bytes@).dynsyms@, goblin::elf::parsed(self.bytes@).dynstrtab, self.base_address),
+    ensures
+        /*@exported*/ views(r@) == exported_syms(goblin::elf::parsed(self.bytes@).dynsyms@, goblin::elf::parsed(self.bytes@).dynstrtab, self.base_address),
+//@ before 0 `for sym in it0:`
+    let ghost p = goblin::elf::parsed(self.bytes@);
+    let ghost base = self.base_address;
+    proof {
+        assert(p.dynsyms@.take(0) =~= Seq::<Sym>::empty());
+        assert(views(v@) =~= Seq::<SymSpec>::empty());
+    }
+//@ loop 0
+    invariant
+        /*@exp_ctx*/ elf == p && p == goblin::elf::parsed(self.bytes@) && base == self.base_address && self.wf() && exported_wf(p.dynsyms@, p.dynstrtab, base),
+        /*@exp_prefix*/ views(v@) == exported_syms(p.dynsyms@.take(it0.index@ as int), p.dynstrtab, base),
+//@ before 0 `if sym.st_value == 0 || sym.st_shndx == 0`
+    let ghost i = it0.index@ as int;
+    let ghost v0 = v@;
+    proof {
+        assert(*sym == p.dynsyms@[i]);
+        lemma_exported_syms_step(p.dynsyms@, p.dynstrtab, base, i);
+        assert(is_exported(p.dynsyms@[i]) ==> p.dynsyms@[i].st_value + base <= u64::MAX && p.dynstrtab.valid_at(p.dynsyms@[i].st_name));
+    }
+//@ after 0 `sym.st_value + self.base_address(), ));`
+    proof {
+        lemma_views_push(v0, v@[v@.len() - 1]);
+        assert(v@ =~= v0.push(v@[v@.len() - 1]));
+    }
+//@ before 0 `v }`
+    proof {
+        assert(p.dynsyms@.take(p.dynsyms@.len() as int) =~= p.dynsyms@);
+    }
+//@ end
+
+//@ fn impl Elf :: fn symbols loops=3
+//@ rewrite 1 `for sym in elf.dynsyms.iter()` => `for sym in it0: elf.dynsyms.iter()` ## R-ghost-iter-name: names the ghost iterator of the for loop so that invariants can mention it; no executable change
+//@ rewrite 1 `for sym in elf.syms.iter()` => `for sym in it1: elf.syms.iter()` ## R-ghost-iter-name: as above
+//@ rewrite 1 `for rel in elf.pltrelocs.iter()` => `for rel in it2: elf.pltrelocs.iter()` ## R-ghost-iter-name: as above
+//@ rewrite 2 `{ continue; }` => `{ } else {` ## R-continue: `if C { continue; } REST` at the end of a loop body is by definition `if C { } else { REST }` (Verus: "for-loops do not yet support continue"); part 1 of 2 (first and second loop)
+//@ rewrite 1 `} for sym in it1:` => `} } for sym in it1:` ## R-continue: part 2 of 2 for the first loop, closes the else block at the end of the loop body
+//@ rewrite 1 `} for rel in it2:` => `} } for rel in it2:` ## R-continue: part 2 of 2 for the second loop
+//@ rewrite 1 `let sym = match elf.dynsyms.get(rel.r_sym) { Some(sym) => sym, None => continue, };` => `if let Some(sym) = elf.dynsyms.get(rel.r_sym) {` ## R-continue: `let x = match E { Some(x) => x, None => continue, }; REST` at the end of a loop body is by definition `if let Some(x) = E { REST }`; part 1 of 2 (third loop)
+//@ rewrite 1 `symbols.sort();` => `vec_sort(&mut symbols);` ## R-std-standin: `V.sort()` replaced by the stand-in of units/C19/std_local.rs (Verus loses the connection between a Vec and the `&mut [T]` it derefs to; the stand-in's body calls the real `sort`)
+//@ rewrite 1 `} vec_sort(` => `} } vec_sort(` ## R-continue: part 2 of 2 for the third loop, closes the `if let` block at the end of the loop body
+//@ spec
+    requires
+        self.wf(),
+        symbols_wf(goblin::elf::parsed(self.bytes@), self.base_address),
+    ensures
+        /*@symbols*/ views(r@) == spec_symbols(goblin::elf::parsed(self.bytes@), self.base_address),
+        /*@listing*/ asc_listing(views(r@), raw_symbols(goblin::elf::parsed(self.bytes@), self.base_address).to_set()),
+//@ before 0 `for sym in it0:`
+    let ghost p = goblin::elf::parsed(self.bytes@);
+    let ghost base = self.base_address;
+    proof {
+        assert(p.dynsyms@.take(0) =~= Seq::<Sym>::empty());
+        assert(views(symbols@) =~= Seq::<SymSpec>::empty());
+    }
+//@ loop 0
+    invariant
+        /*@dyn_ctx*/ elf == p && p == goblin::elf::parsed(self.bytes@) && base == self.base_address && self.wf() && symbols_wf(p, base),
+        /*@dyn_prefix*/ views(symbols@) == value_syms(p.dynsyms@.take(it0.index@ as int), p.dynstrtab, base),
+//@ before 0 `if sym.st_value == 0`
+    let ghost i = it0.index@ as int;
+    let ghost v0 = symbols@;
+    proof {
+        assert(*sym == p.dynsyms@[i]);
+        lemma_value_syms_step(p.dynsyms@, p.dynstrtab, base, i);
+        assert(p.dynsyms@[i].st_value != 0 ==> p.dynsyms@[i].st_value + base <= u64::MAX && p.dynstrtab.valid_at(p.dynsyms@[i].st_name));
+    }
+//@ after 0 `sym.st_value + self.base_address(), ));`
+    proof {
+        lemma_views_push(v0, symbols@[symbols@.len() - 1]);
+        assert(symbols@ =~= v0.push(symbols@[symbols@.len() - 1]));
+    }
+//@ before 0 `for sym in it1:`
+    let ghost r1 = value_syms(p.dynsyms@, p.dynstrtab, base);
+    proof {
+        assert(p.dynsyms@.take(p.dynsyms@.len() as int) =~= p.dynsyms@);
+        assert(p.syms@.take(0) =~= Seq::<Sym>::empty());
+        assert(r1 + Seq::<SymSpec>::empty() =~= r1);
+    }
+//@ loop 1
+    invariant
+        /*@sym_ctx*/ elf == p && p == goblin::elf::parsed(self.bytes@) && base == self.base_address && self.wf() && symbols_wf(p, base)
+            && r1 == value_syms(p.dynsyms@, p.dynstrtab, base),
+        /*@sym_prefix*/ views(symbols@) == r1 + value_syms(p.syms@.take(it1.index@ as int), p.strtab, base),
+//@ before 1 `if sym.st_value == 0`
+    let ghost i = it1.index@ as int;
+    let ghost v0 = symbols@;
+    proof {
+        assert(*sym == p.syms@[i]);
+        lemma_value_syms_step(p.syms@, p.strtab, base, i);
+        assert(p.syms@[i].st_value != 0 ==> p.syms@[i].st_value + base <= u64::MAX && p.strtab.valid_at(p.syms@[i].st_name));
+    }
+//@ after 1 `sym.st_value + self.base_address(), ));`
+    proof {
+        lemma_views_push(v0, symbols@[symbols@.len() - 1]);
+        assert(symbols@ =~= v0.push(symbols@[symbols@.len() - 1]));
+        let pre = value_syms(p.syms@.take(i), p.strtab, base);
+        assert((r1 + pre).push(sview(symbols@[symbols@.len() - 1])) =~= r1 + pre.push(sview(symbols@[symbols@.len() - 1])));
+    }
+//@ before 0 `for rel in it2:`
+    let ghost r2 = r1 + value_syms(p.syms@, p.strtab, base);
+    proof {
+        assert(p.syms@.take(p.syms@.len() as int) =~= p.syms@);
+        assert(p.pltrelocs@.take(0) =~= Seq::<Reloc>::empty());
+        assert(r2 + Seq::<SymSpec>::empty() =~= r2);
+    }
+//@ loop 2
+    invariant
+        /*@plt_ctx*/ elf == p && p == goblin::elf::parsed(self.bytes@) && base == self.base_address && self.wf() && symbols_wf(p, base)
+            && r2 == value_syms(p.dynsyms@, p.dynstrtab, base) + value_syms(p.syms@, p.strtab, base),
+        /*@plt_prefix*/ views(symbols@) == r2 + plt_syms(p.pltrelocs@.take(it2.index@ as int), p.dynsyms@, p.dynstrtab, base),
+//@ before 0 `if let Some(sym) = elf.dynsyms.get(rel.r_sym)`
+    let ghost i = it2.index@ as int;
+    let ghost v0 = symbols@;
+    proof {
+        assert(*rel == p.pltrelocs@[i]);
+        lemma_plt_syms_step(p.pltrelocs@, p.dynsyms@, p.dynstrtab, base, i);
+        assert(p.pltrelocs@[i].r_sym < p.dynsyms@.len() ==> p.pltrelocs@[i].r_offset + base <= u64::MAX
+            && p.dynstrtab.valid_at(p.dynsyms@[p.pltrelocs@[i].r_sym as int].st_name));
+    }
+//@ after 0 `symbols.push(Symbol::new(name, rel.r_offset + self.base_address()));`
+    proof {
+        lemma_views_push(v0, symbols@[symbols@.len() - 1]);
+        assert(symbols@ =~= v0.push(symbols@[symbols@.len() - 1]));
+        let pre = plt_syms(p.pltrelocs@.take(i), p.dynsyms@, p.dynstrtab, base);
+        assert((r2 + pre).push(sview(symbols@[symbols@.len() - 1])) =~= r2 + pre.push(sview(symbols@[symbols@.len() - 1])));
+    }
+//@ before 0 `vec_sort(&mut symbols);`
+    let ghost raw = symbols@;
+    proof {
+        assert(p.pltrelocs@.take(p.pltrelocs@.len() as int) =~= p.pltrelocs@);
+    }
+//@ after 0 `vec_sort(&mut symbols);`
+    let ghost s1 = symbols@;
+//@ after 0 `symbols.dedup();`
+    proof {
+        if views(raw) == raw_symbols(p, base) {
+            lemma_sort_dedup(raw, s1, symbols@, raw_symbols(p, base));
+        }
+    }
+//@ end
+
 } // impl Elf
 
 impl Loader for Elf {
@@ -53,7 +203,12 @@ impl Loader for Elf {
         self.wf() && goblin::elf::parsed(self.bytes@).header.e_entry + self.base_address <= u64::MAX
     }
 
-    open spec fn symbols_req(&self) -> bool { false }
+    /// "well-formed" for `symbols()`: for every symbol with st_value != 0 (both tables) st_value + base does not
+    /// wrap and st_name is a valid string-table offset; for every PLT relocation that names a dynamic symbol
+    /// r_offset + base does not wrap and that symbol's st_name is a valid offset
+    open spec fn symbols_req(&self) -> bool {
+        self.wf() && symbols_wf(goblin::elf::parsed(self.bytes@), self.base_address)
+    }
 
 //@ fn impl Loader for Elf :: fn memory nopub loops=1
 //@ rewrite 1 `for ph in elf.program_headers` => `for ph in it0: elf.program_headers` ## R-ghost-iter-name: names the ghost iterator of the for loop so that invariants can mention it; no executable change
@@ -138,8 +293,8 @@ impl Loader for Elf {
     }
 //@ loop 0
     invariant
-        /*@ctx*/ elf == p && p == goblin::elf::parsed(self.bytes@) && users == self.user_function_entries@ && base == self.base_address && entries_wf(p, users, base),
-        /*@prefix*/ map_matches(function_entries@, add_syms(e0, p.dynsyms@.take(it0.index@ as int), p.dynstrtab, base)),
+        /*@dyn_ctx*/ elf == p && p == goblin::elf::parsed(self.bytes@) && users == self.user_function_entries@ && base == self.base_address && entries_wf(p, users, base),
+        /*@dyn_prefix*/ map_matches(function_entries@, add_syms(e0, p.dynsyms@.take(it0.index@ as int), p.dynstrtab, base)),
 //@ before 0 `if sym.is_function()`
     let ghost i = it0.index@ as int;
     let ghost c0 = function_entries@;
@@ -163,9 +318,9 @@ impl Loader for Elf {
     }
 //@ loop 1
     invariant
-        /*@ctx*/ elf == p && p == goblin::elf::parsed(self.bytes@) && users == self.user_function_entries@ && base == self.base_address && entries_wf(p, users, base)
+        /*@sym_ctx*/ elf == p && p == goblin::elf::parsed(self.bytes@) && users == self.user_function_entries@ && base == self.base_address && entries_wf(p, users, base)
             && m1 == add_syms(e0, p.dynsyms@, p.dynstrtab, base),
-        /*@prefix*/ map_matches(function_entries@, add_syms(m1, p.syms@.take(it1.index@ as int), p.strtab, base)),
+        /*@sym_prefix*/ map_matches(function_entries@, add_syms(m1, p.syms@.take(it1.index@ as int), p.strtab, base)),
 //@ before 1 `if sym.is_function()`
     let ghost i = it1.index@ as int;
     let ghost c0 = function_entries@;
@@ -199,9 +354,9 @@ impl Loader for Elf {
     }
 //@ loop 2
     invariant
-        /*@ctx*/ p == goblin::elf::parsed(self.bytes@) && users == self.user_function_entries@ && base == self.base_address && entries_wf(p, users, base)
+        /*@user_ctx*/ p == goblin::elf::parsed(self.bytes@) && users == self.user_function_entries@ && base == self.base_address && entries_wf(p, users, base)
             && m3 == add_program_entry(add_syms(add_syms(e0, p.dynsyms@, p.dynstrtab, base), p.syms@, p.strtab, base), p.header.e_entry, base),
-        /*@prefix*/ map_matches(function_entries@, add_users(m3, users.take(it2.index@ as int), base)),
+        /*@user_prefix*/ map_matches(function_entries@, add_users(m3, users.take(it2.index@ as int), base)),
 //@ before 0 `if function_entries.contains_key(&user_function_entry)`
     let ghost i = it2.index@ as int;
     let ghost c0 = function_entries@;
@@ -238,6 +393,13 @@ impl Loader for Elf {
 //@ fn impl Loader for Elf :: fn architecture nopub
 //@ spec
     ensures /*@same*/ r == &*self.architecture,
+//@ end
+
+//@ fn impl Loader for Elf :: fn symbols nopub
+//@ spec
+    ensures
+        /*@symbols*/ views(r@) == spec_symbols(goblin::elf::parsed(self.bytes@), self.base_address),
+        /*@listing*/ asc_listing(views(r@), raw_symbols(goblin::elf::parsed(self.bytes@), self.base_address).to_set()),
 //@ end
 
 } // impl Loader for Elf
